@@ -6,6 +6,7 @@ the source between reliable anchors (statement begin offsets, balanced parenthes
 import hashlib
 import json
 import os
+import time
 import pickle
 import subprocess
 import sys
@@ -348,8 +349,18 @@ def load_c(repo, files=C_FILES, jobs=6):
         _gc_cache(set(keys.values()))
     out = {}
     for p in paths:
-        with open(os.path.join(CACHE, keys[p] + ".pkl"), "rb") as f:
-            out[os.path.basename(p)] = CFile(p, pickle.load(f))
+        for attempt in (0, 1, 2):
+            try:
+                with open(os.path.join(CACHE, keys[p] + ".pkl"), "rb") as f:
+                    out[os.path.basename(p)] = CFile(p, pickle.load(f))
+                break
+            except (FileNotFoundError, EOFError):
+                # a concurrent run's cache clean-up removed the entry: rebuild it
+                if attempt == 2:
+                    raise
+                path_, o_, err = _dump_one((p, keys[p]))
+                if err:
+                    raise AnalysisError("%s: %s" % (p, err))
     return out
 
 
@@ -360,8 +371,10 @@ def _gc_cache(keep):
         ents = [(os.path.getmtime(os.path.join(CACHE, f)), f) for f in os.listdir(CACHE)
                 if f.endswith(".pkl")]
         ents.sort(reverse=True)
-        for i, (_, f) in enumerate(ents):
-            if f[:-4] not in keep and i >= 24:
+        now = time.time()
+        for i, (mt, f) in enumerate(ents):
+            # never entries younger than ten minutes: a concurrent run may be about to read them
+            if f[:-4] not in keep and i >= 24 and now - mt > 600:
                 os.unlink(os.path.join(CACHE, f))
     except OSError:
         pass
